@@ -182,11 +182,15 @@ deriving Repr, Inhabited
 def Local.d (L : Local) : Nat := L.basis.length
 def Family.loc (F : Family) : Local := ⟨F.fss, F.basis⟩
 
-/-- the `k` local factors of `embed k i A`: `Z^{nA}` on sites preceding `i` in the fermionic order, `A` at `i`,
-identity elsewhere. `fpos j` = position of site `j` in the fermionic order (`f_map[j]`, default `j`). -/
+/-- local factor at site `j` of `embed i A`, generic in the local algebra (`one`, string operator `z`):
+`A` at `i`, `Z^{nA}` on the sites that precede `i` in the fermionic order, identity elsewhere.
+`fpos j` = position of site `j` in the fermionic order (`f_map[j]`, default `j`). -/
+def embedAt {L : Type} (one : L) (z : Charge → L) (fpos : Nat → Int) (i : Nat) (A : L) (nA : Charge) (j : Nat) : L :=
+  if j = i then A else if fpos j < fpos i then z nA else one
+
+/-- the `k` local factors of `embed k i A` over list matrices -/
 def embedFactors (L : Local) (fpos : Nat → Int) (k i : Nat) (A : Mat) (nA : Charge) : List Mat :=
-  (List.range k).map (fun j =>
-    if j = i then A else if fpos j < fpos i then zmat L.fss L.basis nA else ident L.d)
+  (List.range k).map (embedAt (ident L.d) (zmat L.fss L.basis) fpos i A nA)
 
 /-- `embed k i A` as a dense `d^k × d^k` matrix -/
 def embed (L : Local) (fpos : Nat → Int) (k i : Nat) (A : Mat) (nA : Charge) : Mat :=
